@@ -1,5 +1,6 @@
 //! vreal / vsched: one source tree, two flavours (see DESIGN.md section 4).
 mod build;
+mod diffs;
 mod digest;
 mod drive;
 mod exec;
@@ -150,6 +151,12 @@ fn main() {
                     std::process::exit(0);
                 }
             }
+        }
+        "shimdiff" => std::process::exit(diffs::shim_diff()),
+        "enginediff" => {
+            let mode = args.get(2).map(|s| s.as_str()).unwrap_or("emit");
+            let path = format!("{}/target/enginediff.json", verif_dir());
+            std::process::exit(diffs::engine_diff(mode, &path));
         }
         "trace" => {
             let path = args.get(2).expect("replay file");
